@@ -201,7 +201,8 @@ type C18Case struct {
 	// WithPluginConfigPath: "" the directory itself; symlink (a symbolic link to it);
 	// symlink2 (a link to a link); symparent (a symbolic link among the parent components);
 	// slash (trailing slash); dots ("/./" and "//" inside); relative (relative to the
-	// working directory of the process).
+	// working directory of the process); dot, dotslash, dotdot (".", "./", "./.": the
+	// directory is the working directory; at most one of the two paths).
 	PluginPath string `json:"plugin_path,omitempty"`
 	ConfPath   string `json:"conf_path,omitempty"`
 }
@@ -217,7 +218,11 @@ func isSpecialKind(k string) bool {
 	return false
 }
 
-var pathShapes = []string{"", "", "", "symlink", "symlink2", "symparent", "slash", "dots", "relative"}
+var pathShapes = []string{"", "", "", "symlink", "symlink2", "symparent", "slash", "dots", "relative", "dot", "dotslash", "dotdot"}
+
+// isDotShape: the path is ".", "./" or "./." — the directory is the working directory of the
+// process (the harness changes into it for the duration of Start).
+func isDotShape(s string) bool { return s == "dot" || s == "dotslash" || s == "dotdot" }
 
 func isPathShape(s string) bool {
 	for _, k := range pathShapes {
@@ -546,8 +551,15 @@ func genC18(t *rapid.T) C18Case {
 	}
 	c.PluginPath = rapid.SampledFrom(pathShapes).Draw(t, "plugin_path")
 	c.ConfPath = rapid.SampledFrom(pathShapes).Draw(t, "conf_path")
+
 	if len(c.Confs) == 0 {
 		c.NoConfDir = rapid.Bool().Draw(t, "noconfdir")
+	}
+	if c.NoPluginDir && isDotShape(c.PluginPath) {
+		c.PluginPath = ""
+	}
+	if isDotShape(c.ConfPath) && (isDotShape(c.PluginPath) || c.NoConfDir) {
+		c.ConfPath = "" // one working directory per process
 	}
 
 	held := []string{}
@@ -727,6 +739,12 @@ func validate(c C18Case) error {
 	}
 	if c.SyncFn != "" && c.SyncFn != "fail_before" && c.SyncFn != "fail_after" {
 		return fmt.Errorf("unknown runtime_syncfn %q", c.SyncFn)
+	}
+	if isDotShape(c.PluginPath) && isDotShape(c.ConfPath) {
+		return fmt.Errorf("only one of the two directories can be the working directory")
+	}
+	if (isDotShape(c.PluginPath) && c.NoPluginDir) || (isDotShape(c.ConfPath) && c.NoConfDir) {
+		return fmt.Errorf("the working directory must exist")
 	}
 	if !isPathShape(c.PluginPath) || !isPathShape(c.ConfPath) {
 		return fmt.Errorf("unknown path shape %q / %q", c.PluginPath, c.ConfPath)
